@@ -17,6 +17,12 @@ func C17(c *Case) *Result {
 	cfg := GenConfig(t, GenOpts{Cheap: true, MaxJobs: 4, MaxBlock: 4096, ExactHint: true, Headerless: true, MaxChain: 2})
 	cfg.DecJobs = min(cfg.DecJobs, 4)
 	cfg.Hint, cfg.HintValue = "absent", 0
+	if !cfg.Headerless && t.Intn(3) == 0 {
+		// an advisory size hint of any value (the program below writes what it writes): the values
+		// where the header's size field changes width, and arbitrary ones
+		cfg.Hint = "larger"
+		cfg.HintValue = []int64{1, 15, 16, 255, 256, 65535, 65536, 65537, 1<<24 - 1, 1 << 24, 1<<32 - 1, 1 << 32, 1<<32 + 1, 1 << 40, int64(1 + t.Intn(1<<20))}[t.Intn(15)]
+	}
 	cfg.WBuf = []int{0, 0, 1024}[t.Intn(3)]
 	B := cfg.BlockSize
 	res.Cfg = cfg.Sig()
